@@ -139,6 +139,24 @@ def excluded_ops(cls, kwargs):
     return set()
 
 
+def doc_aliases(cls, kwargs):
+    """additional state labels the class documentation promises: {alias: primary label}"""
+    if cls == 'SpinHalfSite':
+        return {'0.5': 'up', '-0.5': 'down'}
+    if cls == 'SpinSite':
+        S = float(kwargs.get('S', 0.5))          # "states range from down (0) to up (2S+1), corresponding to Sz=-S, ..., S"
+        return {'down': str(-S), 'up': str(S)}
+    if cls == 'BosonSite':
+        return {'vac': '0'}                       # "Local states are vac, 1, 2, ... , Nmax"
+    if cls == 'ClockSite':
+        q = int(kwargs['q'])                      # "Special aliases are up (0), and if q is even down (q / 2)"
+        a = {'up': '0'}
+        if q % 2 == 0:
+            a['down'] = str(q // 2)
+        return a
+    return {}
+
+
 def kron_all(mats):
     out = np.eye(1, dtype=complex)
     for m in mats:
